@@ -169,6 +169,25 @@ def evaluate(case):
                     viol.append(V("from_table/fracface-in-unit-interval", f"m_scaled_func(p_f={p_f:.6g}) = {v!r} for "
                                   f"p_i={p_i:.6g}: not in [0, 1)", case=case, observed=v))
                     break
+        # history: the caller edits a column of the SAME table object in place and builds again - the new wrapper follows
+        # the edited table (nothing keyed on the object's identity may be reused)
+        if not viol and not case.get("helper_kr"):
+            keep_mu = (tbf["mu_o"], tbf["mu_g"])
+            tbf["mu_o"] = np.asarray(tbf["mu_o"], dtype=float) * 1.7  # (same dict object, new column values)
+            tbf["mu_g"] = np.asarray(tbf["mu_g"], dtype=float) * 0.6
+            krt_in2 = {k: v[::-1].copy() for k, v in krt.items()} if case.get("kr_desc") else krt
+            tb2 = dict(tb, mu_o=tbf["mu_o"], mu_g=tbf["mu_g"])
+            want2 = trapezoid_cum(mp.lam_doc(p, So, tb2, kr, rho), p)
+            with warnings.catch_warnings(), np.errstate(all="ignore"):
+                warnings.simplefilter("ignore")
+                fl2 = fp.FlowPropertiesTwoPhase.from_table(tbf, krt_in2, rho, 0.1, KRS[case["kr"]].get("sw", 0.1), float(p[int(0.8 * len(p))]))
+            ms2 = np.asarray(fl2.pvt_props["m-scaled"], dtype=float)
+            with np.errstate(all="ignore"):
+                ratio2 = ms2[1:] / want2[1:]
+            if not np.allclose(ratio2, ratio2[len(ratio2) // 2], rtol=1e-9, atol=0):
+                viol.append(V("from_table/after-in-place-edit", "after the caller changed the viscosity columns of the same table "
+                              "object in place, from_table still tabulates the pseudopressure of the old table", case=case))
+            tbf["mu_o"], tbf["mu_g"] = keep_mu
         key = (case["family"], case.get("grid"), case["kr"], case["rho"])
     return {"violations": viol[:4], "evals": 1, "outcome": case["family"], "key": key,
             "nontrivial": bool(np.ptp(lam) > 0 or case["family"] == "constant")}
